@@ -271,14 +271,13 @@ impl Check for C12 {
         "C12"
     }
     fn sweeps(&self, tier: Tier) -> Vec<Box<dyn Sweep>> {
-        // (depth 7 was measured at 16 GB of resident memory with 32 actions: one level less in the thorough tier)
-        vec![Box::new(SpaceSweep { model: model(tier.pick(5, 6), None) })]
+        vec![Box::new(SpaceSweep { model: model(tier.pick(5, 7), None) })]
     }
     fn meta(&self, tier: Tier) -> Meta {
         Meta {
             bound: format!(
                 "13 programs (variables, arrays, DEFtype, DEF FN also called before its definition, DATA/RESTORE, FOR/GOSUB/WHILE, INPUT, STOP inside loops and subroutines, runtime errors) x all histories of up to {} actions from 32 (22 direct lines incl. assignments, DIM with other bounds than the program's, DEFINT/DEFSTR, READ, RESTORE, FOR, GOSUB into STOP, CLEAR, CONT, one that fails to compile, one that fails to link and a refused direct DATA; two edits of the listing; RUN interrupted after 3, 9, 20 instructions; RUN; CLEAR+probes; NEW+probes; NEW executed by a stored line at two places + probes), deduplicated by the full state digest",
-                tier.pick(4, 5)
+                tier.pick(4, 6)
             ),
             rule: "a case is one transition; judged transitions are RUN (compared with RUN in a fresh interpreter holding the current listing) and CLEAR / NEW followed by 10 probe lines (compared with the probes in a fresh interpreter); distinct_nontrivial = distinct (program, fresh transcript)".into(),
             states_note: "states = distinct full-state digests; transitions = actions executed".into(),
